@@ -462,11 +462,49 @@ pub fn run(tier: Tier) -> i32 {
     logic(&report);
     cases(&report, if tier.thorough() { 3 } else { 2 });
     reexecution(&report, 2);
+    cases_long_lists(&report);
     if tier.thorough() {
         // 4 single-valued arms
         cases_single4(&report);
     }
     report.finish()
+}
+
+
+/// when-lists of three and four values (comma and `or` forms), alone and after a non-matching arm.
+fn cases_long_lists(report: &Report) {
+    let parser = cfgs::parser(Config::Stdlib);
+    let vals = [V::Int(1), V::Int(2), V::s("a"), V::s("1"), V::Nil];
+    let mut n = 0u64;
+    for len in [3usize, 4] {
+        let pool: &[V] = if len == 3 { &vals } else { &vals[..3] };
+        let k = pool.len() as u64;
+        for li in 0..k.pow(len as u32) {
+            let mut x = li;
+            let list: Vec<Expr> = (0..len).map(|_| { let e = Expr::Lit(pool[(x % k) as usize].clone()); x /= k; e }).collect();
+            for or in [false, true] {
+                for target in &vals {
+                    for lead in [false, true] {
+                        let mut whens = Vec::new();
+                        if lead {
+                            whens.push((vec![Expr::s("never")], false, vec![text("LEAD")]));
+                        }
+                        whens.push((list.clone(), or, vec![text("HIT")]));
+                        let prog = vec![text("["), Stmt::Case { target: Expr::var("t"), whens, else_: Some(vec![text("EL")]) }, text("]")];
+                        let data = V::obj(&[("t", target.clone())]);
+                        let textp = print(&prog);
+                        report.eval();
+                        n += 1;
+                        let expected = refl::run(&prog, &data);
+                        let (actual, _) = cfgs::run_case(&parser, &textp, &data.to_object());
+                        cmp::check(report, "C06", "case-long-list", n, || cmp::witness(&textp, &data, &[]), &expected, &actual);
+                    }
+                }
+            }
+        }
+    }
+    report.family(FamilyStat { name: "case-when/lists of 3 and 4 values".into(), cases: n, nontrivial: n, skipped: 0, note: "every 3-list over 5 values and 4-list over 3 values, comma and `or` form, x 5 targets, alone and after a non-matching arm".into() });
+    report.nontrivial.fetch_add(n, Ordering::Relaxed);
 }
 
 fn cases_single4(report: &Report) {
